@@ -2,7 +2,7 @@
 import json
 from gen import common, xpoll, sysattr, btcp, ux, framing
 
-LEAN_MODULE = "XcmModel.Props.C16"
+LEAN_MODULE = ["XcmModel.Props.C16", "XcmModel.Props.Utls"]
 THEOREMS = [
     "XcmModel.Xpoll.kinv_fdRegMod", "XcmModel.Xpoll.kinv_fdRegAdd", "XcmModel.Xpoll.kinv_fdRegDel",
     "XcmModel.Xpoll.updateActive_post", "XcmModel.C16.reach_good",
@@ -10,6 +10,7 @@ THEOREMS = [
     "XcmModel.C16.C16_quiet_when_idle", "XcmModel.C16.C16_readable_when_met",
     "XcmModel.C16.C16_btcp_ready_events", "XcmModel.C16.C16_btcp_terminal_rings",
     "XcmModel.C16.C16_server_events", "XcmModel.C16.C16_ux_events",
+    "XcmModel.UtlsProps.C04_utls_condition_passed_down",
     "XcmModel.C16btls.C16_btls_idle_silent", "XcmModel.C16btls.C16_btls_idle_flush_only", "XcmModel.C16btls.C16_btls_blocked_send_is_accepted", "XcmModel.C16btls.C16_btls_quiet_after_eagain", "XcmModel.C16btls.C16_btls_quiet_after_eagain_retained", "XcmModel.C16btls.C16_btls_bell_reason",
 ]
 
@@ -165,6 +166,9 @@ def run(ctx):
     m, il = ctx.differential("unit_tp", "tp", texe, tops, label="tp")
     _tp.Monitor(ctx).run(tops, il)
     ctx.rule += (" unit_tp: the real xcm_tp.c wrappers over a logging transport vs the Lean Tp model (update follows every send/receive/finish).")
+    from gen import utls as _utls
+    _utls.run_part(ctx, 20 if ctx.tier == "quick" else 800, label="c16utls")
+    ctx.rule += " unit_utls: utls passes exactly the awaited condition (0 included) to its active sub-socket / both sub-servers."
     # the TLS connection machine (xcm_tp_btls.c) against the Lean Btls model, with its monitors
     from gen import btls as _btls
     _btls.run_part(ctx, 10 if ctx.tier == "quick" else 300, exhaustive=True)
